@@ -123,6 +123,11 @@ class Canon(ast.NodeTransformer):
         if isinstance(node.func, ast.Name) and node.func.id in EQUALITY_HELPERS and len(node.args) == 2 and not node.keywords:
             return self.visit(ast.Compare(left=node.args[0], ops=[ast.Eq()], comparators=[node.args[1]]))
         self.generic_visit(node)
+        # all(f(t) for t in (a, b, c)) / any(...): the order of the literal collection iterated does not matter
+        if isinstance(node.func, ast.Name) and node.func.id in ('all', 'any') and len(node.args) == 1 and isinstance(node.args[0], ast.GeneratorExp) and \
+                len(node.args[0].generators) == 1 and isinstance(node.args[0].generators[0].iter, (ast.Tuple, ast.List, ast.Set)):
+            it = node.args[0].generators[0].iter
+            it.elts = sorted(it.elts, key=ast.unparse)
         return node
 
     def visit_Compare(self, node):
